@@ -2778,6 +2778,11 @@ class GraphEmbed(Decomposition):
                 rtol=0,
             )
 
+    def merge(self, other):
+        # The first parameter is an adjacency matrix, not a transformation: the product of two
+        # adjacency matrices is not the composition of the two embeddings.
+        raise MergeFailure("Graph embeddings cannot be merged.")
+
     def _decompose(self, reg, **kwargs):
         cmds = []
 
